@@ -273,6 +273,7 @@ Proof. intros c Hg Hwf Ha. rewrite (judge_sound_all c Hg Hwf Ha), (judge_rules_a
 Print Assumptions C14_judge_sound_with_rules.
 
 Definition ts (n : Z) : value := VM [("seconds", VS (SInt n))].
+Definition at_ (lo hi : Z) : value := VM [("@t0", VS (SInt (lo * 1000000000))); ("@t1", VS (SInt (hi * 1000000000)))].
 Example C14_keyed_rules_catch_wrong_but_coherent_responses :
   let hail := "hailpb.ModelServer/HailApi.Hail" in
   let b := VM [("id", VS (SStr "1")); ("state", VS (SEnum 1)); ("note", VS (SStr "x"))] in
@@ -294,19 +295,30 @@ Proof. vm_compute. repeat split; reflexivity. Qed.
 Example C14_emergency_rule_uses_the_observed_server_clock :
   let em := "emergencypb.MemoryDevice/EmergencyApi.Emergency" in
   let b := VM [("level", VS (SEnum 1))] in                       (* no change time stored *)
-  let q := mkU (Some (VM [("level", VS (SEnum 3))])) None (VM []) in
+  let q := mkU (Some (VM [("level", VS (SEnum 3))])) None (at_ 70 80) in
   let good := VM [("level", VS (SEnum 3)); ("level_change_time", ts 77)] in
   let bad := VM [("level", VS (SEnum 3))] in                     (* level changed, no time minted *)
   judge (KTraceX em b [TUpdate "dev" (inl good); TGet "dev" None (inl (Some good))] [] [] [] [q]) = 0 /\
   judge (KTraceX em b [TUpdate "dev" (inl bad); TGet "dev" None (inl (Some bad))] [] [] [] [q]) = 3 /\
-  (* a stored change time is kept by a write of [level] alone (pointer comparison in the handler) *)
-  let q := mkU (Some (VM [("level", VS (SEnum 3))])) (Some [["level"]]) (VM []) in
+  (* level written under a mask, a change time stored: the time did not change with the level, so the server's is used *)
+  let q := mkU (Some (VM [("level", VS (SEnum 3))])) (Some [["level"]]) (at_ 70 80) in
   let b2 := VM [("level", VS (SEnum 1)); ("level_change_time", ts 5)] in
   let kept := VM [("level", VS (SEnum 3)); ("level_change_time", ts 5)] in
   let restamped := VM [("level", VS (SEnum 3)); ("level_change_time", ts 77)] in
-  judge (KTraceX em b2 [TUpdate "dev" (inl kept); TGet "dev" None (inl (Some kept))] [] [] [] [q]) = 0 /\
-  judge (KTraceX em b2 [TUpdate "dev" (inl restamped); TGet "dev" None (inl (Some restamped))] [] [] [] [q]) = 3.
+  judge (KTraceX em b2 [TUpdate "dev" (inl restamped); TGet "dev" None (inl (Some restamped))] [] [] [] [q]) = 0 /\
+  judge (KTraceX em b2 [TUpdate "dev" (inl kept); TGet "dev" None (inl (Some kept))] [] [] [] [q]) = 3.
 Proof. vm_compute. repeat split; reflexivity. Qed.
+
+(* fixed in /repo (emergencypb/memory.go): the interceptor compared Timestamp pointers, so a level change kept a stale
+   level_change_time unless neither the stored nor the written message had one; v0 of the rule = the old code *)
+Example C14_emergency_stale_change_time_v0_refuted :
+  let b2 := VM [("level", VS (SEnum 1)); ("level_change_time", ts 5)] in
+  let merged := VM [("level", VS (SEnum 3)); ("level_change_time", ts 5)] in        (* Update{level: 3, mask [level]} merged into a clone *)
+  let restamped := VM [("level", VS (SEnum 3)); ("level_change_time", ts 77)] in
+  emergency_after_v0 (mkU None None (at_ 70 80)) (inl restamped) b2 merged = merged /\                           (* old code: level 1 -> 3 at a change time of 5 *)
+  venum "level" merged <> venum "level" b2 /\ vget "level_change_time" merged = vget "level_change_time" b2 /\
+  emergency_after (mkU None None (at_ 70 80)) (inl restamped) b2 merged = restamped.
+Proof. vm_compute. repeat split; congruence. Qed.
 
 Example C14_publication_rule_version_precondition :
   let pb := "publicationpb.ModelServer/PublicationApi.Publication" in
